@@ -63,7 +63,7 @@ func (GCX) Generate(seed uint64, tier string) *core.Scenario {
 	case 2:
 		b.Flags = []string{"--full", "--archive-level", "0"}
 	}
-	for _, f := range []string{"branch", "tag", "deleted-branch", "stash", "conflicted-merge", "staged", "unstaged", "second-table", "early-gc", "tag-on-deleted-branch", "soft-reset"} {
+	for _, f := range []string{"branch", "tag", "deleted-branch", "stash", "conflicted-merge", "staged", "unstaged", "second-table", "early-gc", "tag-on-deleted-branch", "soft-reset", "conflicted-cherry-pick", "conflicted-revert", "rebase-in-progress"} {
 		if r.Chance(2, 3) {
 			b.History = append(b.History, f)
 		}
@@ -242,6 +242,9 @@ func gcFingerprint(ctx context.Context, s *Sess, db string) (string, error) {
 		q("merge-status "+br, fmt.Sprintf("SELECT is_merging, source, target, unmerged_tables FROM `%s`.dolt_merge_status", rdb), false)
 		q("conflicts "+br, fmt.Sprintf("SELECT * FROM `%s`.dolt_conflicts", rdb), false)
 		q("stashes "+br, fmt.Sprintf("SELECT name, stash_id, branch, hash FROM `%s`.dolt_stashes", rdb), false)
+		if strings.HasPrefix(br, "dolt_rebase_") {
+			q("rebase plan "+br, fmt.Sprintf("SELECT * FROM `%s`.dolt_rebase", rdb), false)
+		}
 		tables, err := s.Exec(ctx, fmt.Sprintf("SHOW TABLES FROM `%s`", rdb))
 		if err != nil {
 			return "", err
@@ -363,6 +366,66 @@ func (GCX) Execute(t *testing.T, sc *core.Scenario) *core.Result {
 			}
 		}
 		st.End()
+	}
+	// in-progress cherry-pick, revert and interactive rebase: state that only a working set refers to
+	if has["conflicted-cherry-pick"] {
+		cp, err := w.NewSession(ctx, false)
+		if err != nil {
+			res.Panic = err.Error()
+			return res
+		}
+		if !must(setup, "CALL dolt_branch('cp')", "CALL dolt_branch('cpsrc')",
+			"CALL dolt_checkout('cpsrc')", "UPDATE t SET v = 'picked' WHERE pk = 2", "CALL dolt_commit('-Am', 'to be cherry-picked')", "CALL dolt_checkout('main')") {
+			return res
+		}
+		if !must(cp, "CALL dolt_checkout('cp')", "UPDATE t SET v = 'cp says' WHERE pk = 2", "CALL dolt_commit('-Am', 'cp edit')",
+			"SET @@dolt_allow_commit_conflicts = 1") {
+			return res
+		}
+		if _, err := cp.Exec(ctx, "CALL dolt_cherry_pick('cpsrc')"); err != nil {
+			res.Probe("cherry_pick_refused:" + firstLine(err)[:min(50, len(firstLine(err)))])
+			cp.Exec(ctx, "ROLLBACK")
+		} else if _, err := cp.Exec(ctx, "COMMIT"); err == nil {
+			res.Fault("history:conflicted-cherry-pick-in-progress")
+		}
+		cp.End()
+	}
+	if has["conflicted-revert"] {
+		rv, err := w.NewSession(ctx, false)
+		if err != nil {
+			res.Panic = err.Error()
+			return res
+		}
+		if !must(rv, "CALL dolt_checkout('-b', 'rv')", "UPDATE t SET v = 'first' WHERE pk = 3", "CALL dolt_commit('-Am', 'rv first')",
+			"UPDATE t SET v = 'second' WHERE pk = 3", "CALL dolt_commit('-Am', 'rv second')", "SET @@dolt_allow_commit_conflicts = 1") {
+			return res
+		}
+		if _, err := rv.Exec(ctx, "CALL dolt_revert('HEAD~1')"); err != nil {
+			res.Probe("revert_refused:" + firstLine(err)[:min(50, len(firstLine(err)))])
+			rv.Exec(ctx, "ROLLBACK")
+		} else if _, err := rv.Exec(ctx, "COMMIT"); err == nil {
+			res.Fault("history:conflicted-revert-in-progress")
+		}
+		rv.End()
+	}
+	if has["rebase-in-progress"] {
+		rb, err := w.NewSession(ctx, true)
+		if err != nil {
+			res.Panic = err.Error()
+			return res
+		}
+		if !must(rb, "CALL dolt_checkout('-b', 'rb', 'HEAD~1')", "INSERT INTO t VALUES (80, 'rb one')", "CALL dolt_commit('-Am', 'rb one')",
+			"INSERT INTO t VALUES (81, 'rb two')", "CALL dolt_commit('-Am', 'rb two')") {
+			return res
+		}
+		if _, err := rb.Exec(ctx, "CALL dolt_rebase('-i', 'main')"); err != nil {
+			res.Probe("rebase_refused:" + firstLine(err)[:min(50, len(firstLine(err)))])
+		} else {
+			// the plan is edited and left unfinished
+			rb.Exec(ctx, "UPDATE dolt_rebase SET action = 'squash' WHERE rebase_order > 1")
+			res.Fault("history:interactive-rebase-in-progress")
+		}
+		rb.End()
 	}
 	// data that an earlier collection has already moved to the old generation and that afterwards is
 	// kept alive by a tag, or by the staged root, only
